@@ -15,6 +15,8 @@ R15.6  a plain value emitted as whole line(s) (write_line / write_block of a loc
        bypassed every sanitizer on some way into it
 R15.7  the line scanners that cut Protocol stubs / mock methods out of a rendered method end at the implementation signature: no docstring
        line (spec text) is ever tested for looking like code
+R15.8  the funnel every emitted line goes through (CodeWriter.write_line -> LineWriter.append) hands the text on unchanged: literals that carry
+       meaning (enum values, wire keys, header names) are part of those lines - a character filter applied there rewrites them too
 R15.5  json.dumps() used as a Python-literal maker for spec text passes ensure_ascii=False (non-BMP characters survive)
 R15.3  emitted code is never re-split with str.splitlines() outside docstring/comment assembly (splitlines also splits at
        U+2028, U+0085, FF, VT ..., which Python's tokenizer does not treat as line ends)
@@ -784,6 +786,8 @@ def run(repo: Repo, rep: Report, tier: str) -> None:
     rep.count("R15.5:json_dumps_of_spec_text", n_dumps)
     rep.require(n_dumps >= 6, f"R15.5: only {n_dumps} json.dumps(<spec text>) literal makers found (floor 6)")
 
+    # ---------------------------------------------------------------- R15.8 the line funnel is the identity
+    rule_writer_funnel_is_identity(repo, rep, "R15.8")
     # ---------------------------------------------------------------- R15.3 re-splitting of emitted code
     allowed_splitlines = {
         # (function, reason): assembling docstring/comment text, where every resulting line stays inside that docstring/comment
@@ -1091,3 +1095,46 @@ def rule_scanner_stops_at_signature(repo: Repo, rep, rule: str = "R15.7") -> Non
         except AnalysisError as e:
             rep.error(str(e))  # this rule lost its anchor: the other rules of the property go on
     rep.count(f"{rule}:scanners", len(sites))
+
+
+# ------------------------------------------------------------------------------------------------ R15.8 the writer funnel hands lines on unchanged
+def rule_writer_funnel_is_identity(repo: Repo, rep, rule: str = "R15.8") -> None:
+    """Every emitted line - comments and docstrings, but also the lines that hold `json.dumps(...)` literals of enum values, wire keys, header and
+    query names, discriminator values, media types - passes through `CodeWriter.write_line(line)` and `LineWriter.append(text)`.  Sanitising is
+    the business of the code that knows the lexical context (R15.1); a transformation in the funnel (`re.sub`, `replace`, `translate`, `strip`,
+    `encode`...) is applied to the meaningful literals as well and they no longer evaluate to the document's strings.  Decided: the text
+    parameter reaches the store / the next funnel stage as the parameter itself (plain name, or prefixed by the indentation)."""
+    cw = repo.module("core.writers.code_writer")
+    lw = repo.module("core.writers.line_writer")
+    sites = []
+    wl = cw.classes["CodeWriter"].methods.get("write_line") if "CodeWriter" in cw.classes else None
+    ap = lw.classes["LineWriter"].methods.get("append") if "LineWriter" in lw.classes else None
+    if wl is None or ap is None:
+        raise AnalysisError(f"{rule}: anchor vanished: CodeWriter.write_line / LineWriter.append")
+    for fn in (wl, ap):
+        p0 = [a for a in fn.params if a != "self"]
+        if not p0:
+            raise AnalysisError(f"{rule}: {fn.qualname} has no text parameter (anchor)")
+        par = p0[0]
+        sub = f"{fn.module.relpath}:{fn.qualname} hands `{par}` on unchanged"
+        # any re-binding of the parameter, or any use of it as receiver / argument of a rewriting call
+        rewrites = []
+        for x in own_nodes(fn.node):
+            if isinstance(x, (ast.Assign, ast.AugAssign, ast.AnnAssign)):
+                tg = x.targets if isinstance(x, ast.Assign) else [x.target]
+                if any(isinstance(t, ast.Name) and t.id == par for t in tg):
+                    rewrites.append(x)
+            if isinstance(x, ast.Call):
+                recv = x.func.value if isinstance(x.func, ast.Attribute) else None
+                if isinstance(recv, ast.Name) and recv.id == par and x.func.attr in ("replace", "translate", "strip", "rstrip", "lstrip", "encode", "expandtabs", "lower", "upper",
+                                                                                      "casefold", "title", "format", "removeprefix", "removesuffix", "splitlines", "split"):
+                    rewrites.append(x)
+                d = dotted(x.func) or ""
+                if d.split(".")[-1] in ("sub", "subn", "normalize", "fill", "wrap", "shorten", "dedent") and any(isinstance(a, ast.Name) and a.id == par for a in x.args):
+                    rewrites.append(x)
+        if rewrites:
+            rep.violation(rule, sub, f"{fn.fq}|funnel-rewrites-lines|{norm(rewrites[0])[:40]}",
+                          f"`{norm(rewrites[0])[:70]}`: every emitted line is rewritten here, the ones that carry `json.dumps` literals included - an enum value, wire key, header or query "
+                          "name that contains such a character no longer evaluates to the document's string (the file still parses, nothing is reported)", fn.loc(rewrites[0]))
+        else:
+            rep.ok(rule, sub, "the text is stored / passed on as it was handed in", fn.loc())
